@@ -21,6 +21,7 @@ pub static INFO: PropInfo = PropInfo {
     assumptions: &[
         "single-threaded endpoints, loopback delivery is effectively synchronous; a datagram the relay misses arrives one tick later (a legal delay)",
         "bounds are on virtual time (durations passed to update), never wall-clock",
+        "the relay does not replay a client's handshake datagrams (request / response): doing so legitimately starts a new session for a still valid token, which the per-generation ledgers do not model",
     ],
     gates: &[
         ("lockstep_checked", 2000),
@@ -83,6 +84,13 @@ struct Peer {
     closed_at_ms: Option<u64>,
     closed_by: &'static str,
     connected_seen: bool,
+    /// ClientConnected events seen for this generation; a second one means the server re-established
+    /// a session from stale (delayed / duplicated) handshake datagrams of a still valid token, which
+    /// the netcode protocol allows; the per-generation ledgers do not model that second session
+    connect_events: u32,
+    resurrected: bool,
+    server_gone_seen: bool,
+    client_gone_seen: bool,
     /// ledgers: [dir][ch]
     led: [[Ledger; 3]; 2],
     last_genuine_delivered_ms: [u64; 2],
@@ -163,6 +171,10 @@ impl World {
             closed_at_ms: None,
             closed_by: "",
             connected_seen: false,
+            connect_events: 0,
+            resurrected: false,
+            server_gone_seen: false,
+            client_gone_seen: false,
             led: Default::default(),
             last_genuine_delivered_ms: [self.now_ms; 2],
             tag: r.next_u64(),
@@ -433,6 +445,13 @@ fn one_run_inner(ctx: &Ctx, out: &mut Outcome, run_seed: u64) {
                 connected_total += 1;
                 out.count("clients_connected");
                 fp.u64(0xC0 ^ id);
+                if let Some(p) = w.peers.iter_mut().find(|p| p.id == id) {
+                    p.connect_events += 1;
+                    if p.connect_events > 1 {
+                        p.resurrected = true;
+                        out.count("sessions_reestablished_from_stale_handshake");
+                    }
+                }
             } else {
                 w.server_closed.insert(id, (w.now_ms, "event"));
                 // a session that ends although nobody asked for it, in an interference-only run
@@ -562,6 +581,16 @@ fn one_run_inner(ctx: &Ctx, out: &mut Outcome, run_seed: u64) {
                 }
             }
         }
+        for p in w.peers.iter_mut() {
+            if p.app_closed {
+                if !w.server.is_connected(p.id) && w.st.client_addr(p.id).is_none() {
+                    p.server_gone_seen = true;
+                }
+                if p.client.is_disconnected() && p.transport.disconnect_reason().is_some() {
+                    p.client_gone_seen = true;
+                }
+            }
+        }
         // ---- (c) disconnect propagation deadlines -----------------------------------------------
         let mut j = 0;
         while j < pending_closed_checks.len() {
@@ -571,8 +600,8 @@ fn one_run_inner(ctx: &Ctx, out: &mut Outcome, run_seed: u64) {
                 continue;
             }
             let id = w.peers[k].id;
-            let server_side_gone = !w.server.is_connected(id) && w.st.client_addr(id).is_none();
-            let client_side_gone = w.peers[k].client.is_disconnected() && w.peers[k].transport.disconnect_reason().is_some();
+            let server_side_gone = w.peers[k].server_gone_seen;
+            let client_side_gone = w.peers[k].client_gone_seen;
             if server_side_gone && client_side_gone {
                 propagated += 1;
                 out.count("disconnect_propagated");
@@ -602,8 +631,14 @@ fn one_run_inner(ctx: &Ctx, out: &mut Outcome, run_seed: u64) {
             continue;
         }
         let id = w.peers[*k].id;
-        let server_side_gone = !w.server.is_connected(id) && w.st.client_addr(id).is_none();
-        let client_side_gone = w.peers[*k].client.is_disconnected() && w.peers[*k].transport.disconnect_reason().is_some();
+        let server_side_gone = w.peers[*k].server_gone_seen;
+        let client_side_gone = w.peers[*k].client_gone_seen;
+        if w.peers[*k].resurrected && !(server_side_gone && client_side_gone) {
+            // the server re-established the session from stale handshake datagrams: the client was
+            // legitimately taken back before it noticed anything
+            out.count("propagation_moot_session_reestablished");
+            continue;
+        }
         if !(server_side_gone && client_side_gone) {
             viol(
                 ctx,
@@ -623,7 +658,7 @@ fn one_run_inner(ctx: &Ctx, out: &mut Outcome, run_seed: u64) {
     // ---- end of run: reliable messages of sessions that stayed up must all have arrived ----------
     for k in 0..w.peers.len() {
         let p = &w.peers[k];
-        if p.app_closed || !p.connected_seen || p.client.is_disconnected() || !w.server.is_connected(p.id) {
+        if p.app_closed || p.resurrected || !p.connected_seen || p.client.is_disconnected() || !w.server.is_connected(p.id) {
             continue;
         }
         for dir in 0..2usize {
@@ -687,11 +722,18 @@ fn relay_in(w: &mut World, r: &mut Rng, cfg: &RelayCfg, faults_on: bool, to_serv
     if std::env::var("RV_C20_DEBUG").is_ok() && !faults_on {
         w.log(format!("relay {} peer {} len {}", if to_server { "->S" } else { "->C" }, peer, bytes.len()));
     }
-    if w.history.len() < 512 {
-        w.history.push((to_server, peer, bytes.to_vec()));
-    } else {
-        let i = r.usize_below(512);
-        w.history[i] = (to_server, peer, bytes.to_vec());
+    // Replay material: client->server datagrams are recorded only once the client is connected.
+    // Replaying a client's own connection request + response from its address re-establishes a
+    // netcode session for a still valid token (token reuse from the same address is allowed by the
+    // netcode standard); after an application-level disconnect that would start a *new* session under
+    // the same id, which this oracle (one ledger per client generation) deliberately does not model.
+    if !to_server || w.peers[peer].connected_seen {
+        if w.history.len() < 512 {
+            w.history.push((to_server, peer, bytes.to_vec()));
+        } else {
+            let i = r.usize_below(512);
+            w.history[i] = (to_server, peer, bytes.to_vec());
+        }
     }
     if !faults_on {
         w.flight.push(InFlight { at: tick, to_server, peer, generation, bytes: bytes.to_vec(), genuine: true });
@@ -748,6 +790,10 @@ fn relay_in(w: &mut World, r: &mut Rng, cfg: &RelayCfg, faults_on: bool, to_serv
 
 /// End-to-end channel oracles on one obtained message. dir 0 = client -> server.
 fn check_message(ctx: &Ctx, out: &mut Outcome, w: &mut World, run_seed: u64, k: usize, dir: usize, ch: u8, m: &[u8]) -> bool {
+    if w.peers[k].resurrected {
+        out.count("e2e_messages_skipped_reestablished_session");
+        return true;
+    }
     out.count("e2e_messages_obtained");
     let l = &mut w.peers[k].led[dir][ch as usize];
     let problem: Option<(&'static str, String)> = match ch {
